@@ -44,6 +44,12 @@ Definition as_ret_fail (v : bool * bool) : bool * bool :=
 Definition as_ret_end (v : bool * bool) : bool * bool :=
   let '(any_passed, all_passed) := v in (any_passed, all_passed).
 
+(* if self.hint: <hint pre-check> *)
+Definition searchdef_run_hint_gate (has_hint : bool) (npatterns : Z) : bool :=
+  has_hint.
+(* if ret: break *)
+Definition searchdef_run_leaves_loop (matched : bool) : bool := matched.
+
 (* not isinstance(pattern, list): ... *)
 Definition searchdef_patterns {P C : Type} (compile : P -> C) (is_list : bool)
     (single : P) (many : list P) : list C :=
